@@ -27,8 +27,8 @@
 (*   transcribed machine cannot keep them and which repair would).          *)
 (*                                                                         *)
 (* Event: call (every field of C0), raised, ret, obs = [cwd_home, pools     *)
-(*   (one per handle), disk (one per directory of T.dirs, in that order;    *)
-(*   spk / npy one per node of T.nodes)].  Batch values: the integer the    *)
+(*   (one per handle), disk (one per EXISTING directory, j = its index in   *)
+(*   T.dirs; spk / npy one per node of T.nodes)].  Batch values: the integer the    *)
 (*   harness encoded into the array (with the node and the row), -1 = rows  *)
 (*   missing or not decodable, -2 = reading raised.                         *)
 (* A history that leaves the modelled domain (torn, see PoolLifeOps) is     *)
@@ -100,10 +100,10 @@ PoolDiff(S, h, o) ==
        ELSE IF o.has # [j \in 1..Len(o.has) |-> O!PoolLen(p) > j - 1] THEN "contains-is-len-gt-i"
        ELSE ""
 
+DirAt(j) == <<T.dirs[j][1], T.dirs[j][2]>>
 DirDiff(S, d, o) ==
   LET r == S.disk[d] IN
-  IF r.ex # o.ex THEN "disk-folder-exists"
-  ELSE IF r.pkl.ex # o.pkl THEN "disk-pool-pickle"
+  IF r.pkl.ex # o.pkl THEN "disk-pool-pickle"
   ELSE IF [j \in 1..Len(NodeSeq) |-> r.spk[NodeSeq[j]].k # "absent"] # o.spk THEN "disk-store-pickles"
   ELSE IF [j \in 1..Len(NodeSeq) |-> [ex |-> r.npy[NodeSeq[j]].ex, ini |-> r.npy[NodeSeq[j]].ini, vals |-> r.npy[NodeSeq[j]].data]] # o.npy
        THEN "disk-npy-files"
@@ -113,10 +113,14 @@ DirDiff(S, d, o) ==
 RECURSIVE FirstPool(_, _, _)
 FirstPool(S, obs, h) == IF h > Len(obs.pools) THEN ""
                         ELSE LET x == PoolDiff(S, h, obs.pools[h]) IN IF x # "" THEN x ELSE FirstPool(S, obs, h + 1)
+\* obs.disk lists the folders that exist (j = index into T.dirs)
 RECURSIVE FirstDir(_, _, _)
-FirstDir(S, obs, j) == IF j > Len(T.dirs) THEN ""
-                       ELSE LET x == DirDiff(S, <<T.dirs[j][1], T.dirs[j][2]>>, obs.disk[j]) IN
-                            IF x # "" THEN x ELSE FirstDir(S, obs, j + 1)
+FirstDir(S, obs, k) == IF k > Len(obs.disk) THEN ""
+                       ELSE LET x == DirDiff(S, DirAt(obs.disk[k].j), obs.disk[k]) IN
+                            IF x # "" THEN x ELSE FirstDir(S, obs, k + 1)
+DiskDiff(S, obs) ==
+  IF {obs.disk[k].j : k \in 1..Len(obs.disk)} # {j \in 1..Len(T.dirs) : S.disk[DirAt(j)].ex} THEN "disk-folder-exists"
+  ELSE FirstDir(S, obs, 1)
 
 Match(r, e) ==
   IF r.raised # e.raised THEN "raises-as-transcribed"
@@ -125,7 +129,7 @@ Match(r, e) ==
   ELSE LET pd == FirstPool(r.s, e.obs, 1) IN
        IF pd # "" THEN pd
        ELSE IF e.obs.outside # 0 THEN "disk-unexpected-entries"
-       ELSE FirstDir(r.s, e.obs, 1)
+       ELSE DiskDiff(r.s, e.obs)
 
 \* ---- the call
 CallOf(e) == [op |-> e.call.op, h |-> e.call.h, kind |-> e.call.kind, outs |-> e.call.outs, name |-> e.call.name,
@@ -138,7 +142,7 @@ InDirs(d) == d \in O!Dirs
 WellFormed(e) ==
   LET c == CallOf(e) IN
   /\ c.op \in Ops
-  /\ Len(e.obs.pools) = Cardinality(THandles) /\ Len(e.obs.disk) = Len(T.dirs)
+  /\ Len(e.obs.pools) = Cardinality(THandles) /\ \A k \in 1..Len(e.obs.disk) : e.obs.disk[k].j \in 1..Len(T.dirs)
   /\ (c.op \in O!EnvOps \/ c.h \in THandles)
   /\ (c.op \in O!NeedsPool => cur.pools[c.h].ex)                         \* the harness calls methods on objects it holds
   /\ (c.op \in {"new", "open"} => (~cur.pools[c.h].ex /\ c.prefix \in TPrefixes))
